@@ -1476,6 +1476,11 @@ class Wtp:
                     self.expand_stack.append("TEMPLATE_NAME")
                     tname = expand_recurse(args[0], parent, expand_all)
                     self.expand_stack.pop()
+                    # Kept for the branches below that return the call with
+                    # expanded arguments: expanding args[0] a second time
+                    # there doubles the work at every level of calls nested
+                    # in name position (2**depth)
+                    expanded_name = tname
 
                     # Remove <noinvoke/>
 
@@ -1530,8 +1535,9 @@ class Wtp:
 
                     if name in self.template_override_funcs and not nowiki:
                         # print("Name in template_overrides: {}".format(name))
-                        new_args = tuple(
-                            expand_recurse(x, parent, expand_all) for x in args
+                        new_args = (expanded_name,) + tuple(
+                            expand_recurse(x, parent, expand_all)
+                            for x in args[1:]
                         )
                         parts.append(
                             self.template_override_funcs[name](
@@ -1550,8 +1556,9 @@ class Wtp:
                         # arguments, because those parser functions could
                         # refer to its parent frame and fail if expanded
                         # after eliminating the intermediate templates.
-                        new_args = tuple(
-                            expand_recurse(x, parent, expand_all) for x in args
+                        new_args = (expanded_name,) + tuple(
+                            expand_recurse(x, parent, expand_all)
+                            for x in args[1:]
                         )
                         parts.append(
                             self._unexpanded_template(new_args, nowiki)
